@@ -143,6 +143,89 @@ func genUnevalTemplate(r *rng, id string) *ValCase {
 	return c
 }
 
+// Recursive closed schemas (C14, C01, C07): a schema that reaches itself through several of its
+// own properties (or items) while it is closed by additionalProperties / unevaluatedProperties,
+// so that the bookkeeping of one object is live while the same schema object is evaluated
+// again for a nested object. Instances are trees that use every declared property.
+func genRecTemplate(r *rng, id string) *ValCase {
+	g := &genCtx{r: r}
+	names := shuffled(r, namePool[:4])
+	nrec := 1 + r.intn(2)
+	self := pick(r, []string{"#", "#", "#/$defs/node", "#node"})
+	props := DObj{}
+	for i, nm := range names {
+		switch {
+		case i < nrec:
+			props = append(props, DMem{nm, DObj{{"$ref", DStr(self)}}})
+		case i == nrec && r.chance(1, 2):
+			props = append(props, DMem{nm, DObj{{"type", DStr("array")}, {"items", DObj{{"$ref", DStr(self)}}}}})
+		default:
+			props = append(props, DMem{nm, pick(r, []Doc{DBool(true), DObj{{"type", DStr("integer")}}, DObj{}})})
+		}
+	}
+	node := DObj{{"properties", props}}
+	closer := pick(r, []string{"additionalProperties", "additionalProperties", "unevaluatedProperties", "both"})
+	if closer == "additionalProperties" || closer == "both" {
+		node = append(node, DMem{"additionalProperties", DBool(false)})
+	}
+	if closer == "unevaluatedProperties" || closer == "both" {
+		node = append(node, DMem{"unevaluatedProperties", DBool(false)})
+	}
+	if r.chance(1, 3) {
+		node = append(node, DMem{"required", toDoc([]string{names[len(names)-1]})})
+	}
+	var root DObj
+	switch self {
+	case "#":
+		root = node
+	case "#node":
+		root = DObj{{"$ref", DStr("#node")}, {"$defs", DObj{{"node", append(DObj{{"$anchor", DStr("node")}}, node...)}}}}
+	default:
+		root = DObj{{"$ref", DStr("#/$defs/node")}, {"$defs", DObj{{"node", node}}}}
+	}
+	c := &ValCase{ID: id, Doc: root, NoLoader: true}
+	var tree func(depth int, full bool) Doc
+	tree = func(depth int, full bool) Doc {
+		o := DObj{}
+		for i, nm := range names {
+			if !full && r.chance(1, 4) {
+				continue
+			}
+			rec := i < nrec
+			if rec && depth > 0 {
+				o = append(o, DMem{nm, tree(depth-1, full)})
+			} else if !rec {
+				if arr, ok := props[i].V.(DObj); ok && len(arr) == 2 && depth > 0 {
+					o = append(o, DMem{nm, DArr{tree(depth-1, full)}})
+				} else if ok && len(arr) == 2 {
+					o = append(o, DMem{nm, DArr{}})
+				} else {
+					o = append(o, DMem{nm, pick(r, []Doc{DNum("1"), DNum("2"), DStr("s")})})
+				}
+			}
+		}
+		return DObj(shuffled(r, []DMem(o)))
+	}
+	for i := 0; i < 10; i++ {
+		t := tree(1+r.intn(3), i < 6)
+		if i >= 8 {
+			// a stranger member somewhere: must be rejected
+			if o, ok := t.(DObj); ok {
+				t = append(o, DMem{"zz", DNum("1")})
+			}
+		}
+		c.Insts = append(c.Insts, canonInst(t))
+	}
+	_ = g
+	c.Note = fmt.Sprintf("nontrivial=1 shape=%x", fnv(shapeOf(root)))
+	return c
+}
+
 func init() {
-	families["unevalt"] = func(r *rng, id string) Case { return genUnevalTemplate(r, id) }
+	families["unevalt"] = func(r *rng, id string) Case {
+		if r.chance(1, 5) {
+			return genRecTemplate(r, id)
+		}
+		return genUnevalTemplate(r, id)
+	}
 }
